@@ -114,6 +114,9 @@ type c03Layer struct {
 	model bool
 }
 
+// c03SetupErr is set by a layer's build function when the composition itself cannot be set up
+var c03SetupErr string
+
 func c03Layers() []c03Layer {
 	return []c03Layer{
 		{"mem", "mem", func() (hackpadfs.FS, []hackpadfs.FS) { fs := newMem(); return fs, []hackpadfs.FS{fs} }, true},
@@ -124,10 +127,10 @@ func c03Layers() []c03Layer {
 			_ = hackpadfs.MkdirAll(root, "ab/b", 0o755)
 			m, _ := mount.NewFS(root)
 			if err := m.AddMount("a", m1); err != nil {
-				panic(err)
+				c03SetupErr = fmt.Sprintf("AddMount(%q) on a mount FS whose root has the directories a and ab/b failed: %v", "a", err)
 			}
 			if err := m.AddMount("ab/b", m2); err != nil {
-				panic(err)
+				c03SetupErr = fmt.Sprintf("AddMount(%q) on a mount FS whose root has the directories a and ab/b, after mounting at %q, failed: %v (the directory exists in the root file system, where this path routes)", "ab/b", "a", err)
 			}
 			return m, []hackpadfs.FS{m, root, m1, m2}
 		}, false},
@@ -150,9 +153,16 @@ func runC03(r *Rng, n int, replay string) {
 		l := layers[id%len(layers)]
 		ops := genNS(r, true)
 		cands := withNamedPaths(cands, ops)
+		c03SetupErr = ""
 		fs, views := l.build()
 		w := &World{FS: fs}
 		c := &Case{ID: id, Kind: l.name}
+		if c03SetupErr != "" {
+			c.Text = []string{c03SetupErr}
+			c.fail(c03SetupErr, l.id+":setup")
+			emit(c)
+			continue
+		}
 		cells := map[string]bool{}
 		var opsC, items []string
 		for i, o := range ops {
